@@ -6,6 +6,7 @@
 //  B  arbitrary request bytes (length enumerated) against a reference model built from Meta<> decoders.
 //@tu unwind=12 memunwind=60 loop:ReadEntries=3
 //@h _n(\d+)$ : unwind=16
+//@h frame_ : timeout=900
 //@h _n1[6-9]$ : unwind=22
 #include "io.h"
 #include "pool.h"
@@ -249,7 +250,7 @@ static void request_b_harness() {
 #define IH(tier, M, P) extern "C" void tier##_invoke_m##M##_partial##P(void) { invoke_harness<M, P>(); }
 IH(hq, 0, 0) IH(hq, 1, 0) IH(hq, 2, 0) IH(hq, 3, 0) IH(hq, 0, 1) IH(hq, 1, 1) IH(hq, 2, 1) IH(hq, 3, 1)
 #define FR_(tier, A, B) extern "C" void tier##_frame_##A##_##B(void) { frame_harness<A, B>(); }
-FR_(hq, 0, 3) FR_(hq, 2, 0) FR_(ht, 3, 2) FR_(ht, 0, 0)
+FR_(hq, 0, 3) FR_(ht, 2, 0) FR_(ht, 3, 2) FR_(ht, 0, 0)
 extern "C" void hq_invoke_b_neg(void) { invoke_b_harness<0>(); }
 extern "C" void hq_invoke_b_zero(void) { invoke_b_harness<1>(); }
 #define RQ(tier, N) extern "C" void tier##_request_n##N(void) { request_harness<N>(); }
